@@ -22,7 +22,67 @@ func wraps(v, target ssa.Value, depth int) bool {
 	if r == root(target) {
 		return true
 	}
+	// a recycled buffered writer pointed at the target (`bw := pool.Get().(*bufio.Writer); bw.Reset(w)`)
+	if resetOnto(r, target, depth) {
+		return true
+	}
 	switch x := r.(type) {
+	case *ssa.UnOp:
+		// a local variable assigned on several ways (`var bw *bufio.Writer; if … { bw = cw } else { bw = pooled
+		// … }`): every value it is given in this function wraps the target
+		if x.Op == token.MUL {
+			if cell := cellOf(x.X); cell != nil && !cellEscapes(cell) {
+				n, all := 0, true
+				for _, st := range cellStores(cell) {
+					if st.Parent() != x.Parent() {
+						if isNilConst(st.Val) || deferredOnlyClosure(st.Parent()) {
+							continue
+						}
+						all = false
+						continue
+					}
+					if isNilConst(st.Val) {
+						continue
+					}
+					n++
+					if st.Val == ssa.Value(x) || !wraps(st.Val, target, depth+1) {
+						all = false
+					}
+				}
+				if n > 1 && all {
+					return true
+				}
+			}
+		}
+	}
+	switch x := r.(type) {
+	case *ssa.Phi:
+		// every way it can have been made wraps the target (`if cw, ok := w.(*bufio.Writer); ok { bw = cw }
+		// else { bw = pooled; bw.Reset(w) }`)
+		n := 0
+		for _, e := range x.Edges {
+			if e == ssa.Value(x) || isNilConst(e) {
+				continue
+			}
+			n++
+			if !wraps(e, target, depth+1) {
+				return false
+			}
+		}
+		return n > 0
+	case *ssa.Extract:
+		if ta, ok := x.Tuple.(*ssa.TypeAssert); ok && ta.CommaOk && x.Index == 0 {
+			return wraps(ta.X, target, depth+1)
+		}
+		// a writer handed back, with something else, by a constructor that was handed the target
+		// (`bw, pooled := acquirePersistWriter(w)`)
+		if call, ok := x.Tuple.(*ssa.Call); ok && isWriterInterfaceOrPtr(x.Type()) {
+			for _, a := range call.Call.Args {
+				if wraps(a, target, depth+1) {
+					return true
+				}
+			}
+		}
 	case *ssa.Call:
 		for _, a := range x.Call.Args {
 			if wraps(a, target, depth+1) {
@@ -1597,10 +1657,14 @@ func r6ProducerBody(c *RuleCtx, fn *ssa.Function, props []string, name string, a
 // variable): it does not merely look at the error, it decides it.
 func errCellAssignedBy(cl *ssa.Function) *ssa.FreeVar {
 	var out *ssa.FreeVar
-	eachInstr(cl, func(_ *ssa.BasicBlock, in ssa.Instruction) {
+	panicOnly := panicOnlyRegion(cl)
+	eachInstr(cl, func(b *ssa.BasicBlock, in ssa.Instruction) {
 		st, ok := in.(*ssa.Store)
 		if !ok {
 			return
+		}
+		if panicOnly != nil && (panicOnly == b || panicOnly.Dominates(b)) {
+			return // what a recovered panic is turned into: no exit of the body runs this
 		}
 		fv, ok := st.Addr.(*ssa.FreeVar)
 		if !ok || !isErrorType(derefType(fv.Type())) {
@@ -2842,6 +2906,7 @@ func onceGuardedFree(cl *ssa.Function, freeFns map[*ssa.Function]bool) bool {
 // --- R6e: every produced native index is released or handed over ------------
 
 func r6FaissProducers(c *RuleCtx) {
+	handed := map[handedKey][]ssa.CallInstruction{}
 	props := []string{"C19", "C16"}
 	isProducer := func(f *ssa.Function) bool {
 		if f == nil || f.Pkg == nil || f.Pkg.Pkg.Path() != faissModule {
@@ -2868,6 +2933,9 @@ func r6FaissProducers(c *RuleCtx) {
 				nsites++
 				idx := extractOf(call, 0)
 				perr := extractOf(call, 1)
+				if ei := errorResultIndex(call.Call.Signature()); ei >= 0 {
+					perr = extractOf(call, ei) // (a producer of the package may hand back more than the index)
+				}
 				name := funcShortName(fn) + "/" + staticCallee(cs).Name()
 				if idx == nil {
 					if emit {
@@ -2961,6 +3029,31 @@ func r6FaissProducers(c *RuleCtx) {
 					}
 					return false
 				}
+				// the producer closes the index itself somewhere (typically `defer idx.Close()`): a routine it
+				// hands the index to only borrows it
+				closesMemo := 0
+				closesItself := func() bool {
+					if closesMemo != 0 {
+						return closesMemo == 1
+					}
+					closesMemo = 2
+					scan := func(f *ssa.Function) {
+						for _, cs2 := range callSites(f) {
+							if iv, ok := faissCloseOf(cs2); ok {
+								if isIdx(iv) || (f != fn && isFaissIndexPtr(iv.Type())) {
+									closesMemo = 1
+								}
+							}
+						}
+					}
+					scan(fn)
+					for _, f2 := range c.p.ZapFuncs {
+						if f2.Parent() != nil && rootParent(f2) == fn {
+							scan(f2)
+						}
+					}
+					return closesMemo == 1
+				}
 				var pa *pathAnalysis
 				closureSummary := map[*ssa.Function]uint64{}
 				var tr transferFn
@@ -3020,8 +3113,11 @@ func r6FaissProducers(c *RuleCtx) {
 							return nil
 						}
 						if f != nil && c.p.InZap(f) {
-							for _, a := range x.Common().Args {
+							for ai, a := range x.Common().Args {
 								if isIdx(a) && isFaissIndexPtr(a.Type()) {
+									if ai < len(f.Params) && len(f.Blocks) > 0 && !closesItself() {
+										handed[handedKey{f, ai}] = appendSite(handed[handedKey{f, ai}], x)
+									}
 									return []uint64{ev | evReleased} // handed to a zap routine (cache insert)
 								}
 							}
@@ -3039,6 +3135,11 @@ func r6FaissProducers(c *RuleCtx) {
 					lbl := exitLabel(ret, labels)
 					v, ns := errorOfReturn(ret)
 					if v != nil && perr != nil && (sameValue(v, perr) || sameValue(resolveLoad(v), perr)) && ns == nonNil {
+						continue
+					}
+					// ... or the exit lies in the branch where the producer's error (possibly kept in the
+					// function's error variable) was found non-nil: nothing was produced
+					if perr != nil && ns != isNil && underNonNilTestOf(perr, ret.Block()) {
 						continue
 					}
 					// the producer's own error dressed up by a helper (`return wrapErr("creating index", err)`)
@@ -3095,6 +3196,7 @@ func r6FaissProducers(c *RuleCtx) {
 			}
 		}
 	}
+	r6HandedIndexes(c, props, handed)
 	c.add(statusOf(nsites >= half(3)), "producer-sites", "-", "native index producer call sites are found (confirmed by hand: 3)", fmt.Sprintf("found %d", nsites), props, nil)
 }
 
@@ -3599,4 +3701,449 @@ func flagGuardedHelper(p *Program, callee *ssa.Function, args []ssa.Value, file,
 		return f, t, true // true edge = flag not set
 	}
 	return t, f, true
+}
+
+// underNonNilTestOf: block b is dominated by the non-nil side of a test of the error value e (or of a
+// variable that, at the test, holds e).
+func underNonNilTestOf(e ssa.Value, b *ssa.BasicBlock) bool {
+	for x := b; x != nil; x = x.Idom() {
+		pb := x.Idom()
+		if pb == nil {
+			break
+		}
+		iff, ok := pb.Instrs[len(pb.Instrs)-1].(*ssa.If)
+		if !ok || len(pb.Succs) != 2 || len(x.Preds) != 1 || x.Preds[0] != pb {
+			continue
+		}
+		t, nilWhen, ok := errNilTest(iff.Cond)
+		if !ok {
+			continue
+		}
+		if !(sameValue(t, e) || sameValue(resolveLoad(t), e)) {
+			continue
+		}
+		if (pb.Succs[0] == x) != nilWhen {
+			return true
+		}
+	}
+	return false
+}
+
+type handedKey struct {
+	f  *ssa.Function
+	pi int
+}
+
+// r6HandedIndexes: a routine of the package that a producer hands its native index to (the call counts as
+// the release there) owns it from then on: on every path to every return it has closed the index, stored
+// it into an owner (a field, a global), handed it on to another routine of the package — judged the same
+// way — or returns it. The parameter is followed as a variable: an assignment to it (`index, … =
+// entry.load()`) ends what it held.
+func appendSite(l []ssa.CallInstruction, x ssa.CallInstruction) []ssa.CallInstruction {
+	for _, y := range l {
+		if y == x {
+			return l
+		}
+	}
+	return append(l, x)
+}
+
+// absentAtCall: the call site cs (in its function) is dominated by the "no entry" side of a look-up, in the
+// map held in field sn.fld of the value passed as argument `recvArg`, of the value passed as argument
+// `keyArg` — `entry := vc.cache[id]; if entry != nil { … return }` or `_, ok := vc.cache[id]; if !ok`.
+func absentAtCall(cs ssa.CallInstruction, sn, fld string, recvArg, keyArg int) bool {
+	args := cs.Common().Args
+	if recvArg >= len(args) || keyArg >= len(args) {
+		return false
+	}
+	fn := cs.Parent()
+	found := false
+	eachInstr(fn, func(_ *ssa.BasicBlock, in ssa.Instruction) {
+		lk, ok := in.(*ssa.Lookup)
+		if !ok || found {
+			return
+		}
+		s2, f2, base, ok := loadedField(lk.X)
+		if !ok || s2 != sn || f2 != fld || !sameValue(base, args[recvArg]) || !sameValue(lk.Index, args[keyArg]) {
+			return
+		}
+		// the tests of its result
+		var val, okv ssa.Value
+		if lk.CommaOk {
+			val, okv = extractOfTuple(lk, 0), extractOfTuple(lk, 1)
+		} else {
+			val = lk
+		}
+		for _, b := range fn.Blocks {
+			iff, isIf := b.Instrs[len(b.Instrs)-1].(*ssa.If)
+			if !isIf || len(b.Succs) != 2 {
+				continue
+			}
+			absentIdx := -1
+			cond, neg := iff.Cond, false
+			if u, isU := cond.(*ssa.UnOp); isU && u.Op == token.NOT {
+				cond, neg = u.X, true
+			}
+			if okv != nil && cond == okv {
+				absentIdx = 1
+				if neg {
+					absentIdx = 0
+				}
+			}
+			if bo, isBO := cond.(*ssa.BinOp); isBO && val != nil && (bo.Op == token.EQL || bo.Op == token.NEQ) {
+				if (bo.X == val && isNilConst(bo.Y)) || (bo.Y == val && isNilConst(bo.X)) {
+					absentIdx = 0
+					if bo.Op == token.NEQ {
+						absentIdx = 1
+					}
+					if neg {
+						absentIdx = 1 - absentIdx
+					}
+				}
+			}
+			if absentIdx < 0 {
+				continue
+			}
+			side := b.Succs[absentIdx]
+			if len(side.Preds) == 1 && (side == cs.Block() || side.Dominates(cs.Block())) && !unlockedBetween(lk, cs) {
+				found = true
+			}
+		}
+	})
+	return found
+}
+
+func extractOfTuple(t ssa.Value, idx int) ssa.Value {
+	if t.Referrers() == nil {
+		return nil
+	}
+	for _, r := range *t.Referrers() {
+		if ex, ok := r.(*ssa.Extract); ok && ex.Index == idx {
+			return ex
+		}
+	}
+	return nil
+}
+
+func r6HandedIndexes(c *RuleCtx, props []string, handed map[handedKey][]ssa.CallInstruction) {
+	done := map[handedKey]bool{}
+	n := 0
+	for len(handed) > len(done) && n < 32 {
+		var keys []handedKey
+		for k := range handed {
+			if !done[k] {
+				keys = append(keys, k)
+			}
+		}
+		sort.Slice(keys, func(i, j int) bool {
+			if keys[i].f.String() != keys[j].f.String() {
+				return keys[i].f.String() < keys[j].f.String()
+			}
+			return keys[i].pi < keys[j].pi
+		})
+		for _, k := range keys {
+			done[k] = true
+			n++
+			fn, prm := k.f, k.f.Params[k.pi]
+			// the parameter spilled into a variable (it is assigned to, or captured)
+			var cell *ssa.Alloc
+			if refs := prm.Referrers(); refs != nil {
+				for _, r := range *refs {
+					if st, ok := r.(*ssa.Store); ok && st.Val == ssa.Value(prm) {
+						if al, ok := st.Addr.(*ssa.Alloc); ok {
+							cell = al
+						}
+					}
+				}
+			}
+			const (
+				evHeld     = 1 << 0 // the variable still holds what was handed in
+				evReleased = 1 << 1
+			)
+			cur := uint64(0)
+			isIdx := func(v ssa.Value) bool {
+				if v == nil {
+					return false
+				}
+				if root(v) == ssa.Value(prm) {
+					return true
+				}
+				if cell != nil {
+					if u, ok := root(v).(*ssa.UnOp); ok && u.Op == token.MUL && cellOf(u.X) == cell {
+						return cur&evHeld != 0
+					}
+				}
+				return false
+			}
+			var tr transferFn
+			tr = func(in ssa.Instruction, ev uint64, deferred bool) []uint64 {
+				cur = ev
+				switch x := in.(type) {
+				case *ssa.Store:
+					if cell != nil && cellOf(x.Addr) == cell {
+						if x.Val == ssa.Value(prm) || isIdx(x.Val) {
+							return []uint64{ev | evHeld}
+						}
+						return []uint64{ev &^ evHeld}
+					}
+					if isIdx(x.Val) {
+						if _, _, _, ok := fieldOf(x.Addr); ok {
+							return []uint64{ev | evReleased}
+						}
+						if _, ok := x.Addr.(*ssa.Global); ok {
+							return []uint64{ev | evReleased}
+						}
+					}
+				case ssa.CallInstruction:
+					if _, isDefer := in.(*ssa.Defer); isDefer && !deferred {
+						return nil
+					}
+					if iv, ok := faissCloseOf(x); ok && isIdx(iv) {
+						return []uint64{ev | evReleased}
+					}
+					if f := staticCallee(x); f != nil && c.p.InZap(f) {
+						for ai, a := range x.Common().Args {
+							if isIdx(a) && isFaissIndexPtr(a.Type()) {
+								if ai < len(f.Params) && len(f.Blocks) > 0 {
+									handed[handedKey{f, ai}] = appendSite(handed[handedKey{f, ai}], x)
+								}
+								return []uint64{ev | evReleased}
+							}
+						}
+					}
+				}
+				return nil
+			}
+			pa := newPathAnalysis(fn, tr)
+			// a look-up in the owner's table, by a key that is a parameter, that every handing caller has
+			// just made itself and found no entry for (under the lock both hold): the "entry exists" side
+			// cannot be taken
+			infeasible := map[*ssa.BasicBlock]int{}
+			for _, b := range fn.Blocks {
+				iff, isIf := b.Instrs[len(b.Instrs)-1].(*ssa.If)
+				if !isIf || len(b.Succs) != 2 {
+					continue
+				}
+				cond, neg := iff.Cond, false
+				if u, isU := cond.(*ssa.UnOp); isU && u.Op == token.NOT {
+					cond, neg = u.X, true
+				}
+				var lk *ssa.Lookup
+				presentIdx := -1
+				if ex, isEx := cond.(*ssa.Extract); isEx && ex.Index == 1 {
+					if l, isL := ex.Tuple.(*ssa.Lookup); isL && l.CommaOk {
+						lk, presentIdx = l, 0
+					}
+				}
+				if bo, isBO := cond.(*ssa.BinOp); isBO && (bo.Op == token.EQL || bo.Op == token.NEQ) {
+					other := bo.X
+					if isNilConst(bo.X) {
+						other = bo.Y
+					} else if !isNilConst(bo.Y) {
+						other = nil
+					}
+					if other != nil {
+						if l, isL := other.(*ssa.Lookup); isL && !l.CommaOk {
+							lk, presentIdx = l, 1
+							if bo.Op == token.NEQ {
+								presentIdx = 0
+							}
+						} else if ex, isEx := other.(*ssa.Extract); isEx && ex.Index == 0 {
+							if l, isL := ex.Tuple.(*ssa.Lookup); isL {
+								lk, presentIdx = l, 1
+								if bo.Op == token.NEQ {
+									presentIdx = 0
+								}
+							}
+						}
+					}
+				}
+				if lk == nil {
+					continue
+				}
+				if neg {
+					presentIdx = 1 - presentIdx
+				}
+				sn, fld, base, ok := loadedField(lk.X)
+				if !ok {
+					continue
+				}
+				recvArg, keyArg := -1, -1
+				for i, q := range fn.Params {
+					if root(base) == ssa.Value(q) {
+						recvArg = i
+					}
+					if root(lk.Index) == ssa.Value(q) {
+						keyArg = i
+					}
+				}
+				if recvArg < 0 || keyArg < 0 || len(handed[k]) == 0 {
+					continue
+				}
+				all := true
+				for _, cs := range handed[k] {
+					if !absentAtCall(cs, sn, fld, recvArg, keyArg) {
+						all = false
+					}
+				}
+				if all {
+					infeasible[b] = presentIdx
+				}
+			}
+			pa.edge = func(pred, succ *ssa.BasicBlock, _ uint64) bool {
+				if i, ok := infeasible[pred]; ok && pred.Succs[i] == succ && pred.Succs[0] != pred.Succs[1] {
+					return false
+				}
+				return true
+			}
+			init := uint64(evHeld)
+			pa.run(init)
+			labels := map[string]int{}
+			for _, ret := range returnsOf(fn) {
+				if !pa.reachable(ret.Block()) {
+					continue
+				}
+				lbl := exitLabel(ret, labels)
+				okc := true
+				for _, ev := range pa.statesBefore(ret) {
+					cur = ev
+					returned := false
+					for i := range ret.Results {
+						if isIdx(returnedValue(ret, i)) {
+							returned = true
+						}
+					}
+					if ev&evReleased == 0 && !returned {
+						okc = false
+					}
+				}
+				v, _ := errorOfReturn(ret)
+				c.add(statusOf(okc), "handed-index/"+funcShortName(fn)+"/"+lbl, c.pos(ret),
+					"the native index handed to "+funcShortName(fn)+" (the caller's release) is closed, stored into an owner, handed on or returned before this exit",
+					"a path leaves "+funcShortName(fn)+" with the index it was handed neither closed nor kept: nobody can close it any more", props, exitWitness(c, ret, v))
+			}
+		}
+	}
+}
+
+// unlockedBetween: some mutex is released (not deferred) on a way from instruction a to instruction b of
+// the same function — what was learnt under the lock at a need not hold at b.
+func unlockedBetween(a, b ssa.Instruction) bool {
+	fn := a.Parent()
+	idx := func(in ssa.Instruction) int {
+		for i, x := range in.Block().Instrs {
+			if x == in {
+				return i
+			}
+		}
+		return -1
+	}
+	bad := false
+	eachInstr(fn, func(blk *ssa.BasicBlock, in ssa.Instruction) {
+		cs, ok := in.(*ssa.Call)
+		if !ok || bad {
+			return
+		}
+		_, op, _ := mutexOp(cs)
+		if op != "Unlock" && op != "RUnlock" {
+			return
+		}
+		after := (blk == a.Block() && idx(in) > idx(a)) || (blk != a.Block() && reachesBlock(a.Block(), blk))
+		before := (blk == b.Block() && idx(in) < idx(b)) || (blk != b.Block() && reachesBlock(blk, b.Block()))
+		if after && before {
+			bad = true
+		}
+	})
+	return bad
+}
+
+// resetOnto: r is a *bufio.Writer (possibly behind a type assertion) on which Reset(x) is called with an x
+// that wraps target.
+func resetOnto(r, target ssa.Value, depth int) bool {
+	seen := map[ssa.Value]bool{}
+	work := []ssa.Value{r}
+	for len(work) > 0 && len(seen) < 16 {
+		v := work[len(work)-1]
+		work = work[:len(work)-1]
+		if seen[v] || v.Referrers() == nil {
+			continue
+		}
+		seen[v] = true
+		for _, ref := range *v.Referrers() {
+			switch x := ref.(type) {
+			case *ssa.TypeAssert:
+				work = append(work, x)
+			case *ssa.ChangeType:
+				work = append(work, x)
+			case *ssa.Extract:
+				work = append(work, x)
+			case *ssa.Store:
+				// kept in a local variable: the loads that see this very store
+				if cell := cellOf(x.Addr); cell != nil && x.Val == v {
+					for _, r2 := range *cell.Referrers() {
+						if ld, ok := r2.(*ssa.UnOp); ok && ld.Op == token.MUL && resolveLoad(ld) == v {
+							work = append(work, ld)
+						}
+					}
+				}
+			case ssa.CallInstruction:
+				if f := staticCallee(x); f != nil && f.String() == "(*bufio.Writer).Reset" && len(x.Common().Args) == 2 && x.Common().Args[0] == v {
+					if !isNilConst(x.Common().Args[1]) && wraps(x.Common().Args[1], target, depth+1) {
+						return true
+					}
+				}
+			}
+		}
+	}
+	return false
+}
+
+// isWriterInterfaceOrPtr: t has a Write method (an io.Writer, *bufio.Writer, *CountHashWriter, ...).
+func isWriterInterfaceOrPtr(t types.Type) bool {
+	if isWriterInterface(t) {
+		return true
+	}
+	ms := types.NewMethodSet(t)
+	for i := 0; i < ms.Len(); i++ {
+		if ms.At(i).Obj().Name() == "Write" {
+			return true
+		}
+	}
+	return false
+}
+
+// panicOnlyRegion: the closure starts with `if r := recover(); r != nil { … }`: returns the block that is
+// entered only when a panic was recovered (nil if the closure is not of that shape).
+func panicOnlyRegion(cl *ssa.Function) *ssa.BasicBlock {
+	if len(cl.Blocks) == 0 {
+		return nil
+	}
+	entry := cl.Blocks[0]
+	iff, ok := entry.Instrs[len(entry.Instrs)-1].(*ssa.If)
+	if !ok || len(entry.Succs) != 2 {
+		return nil
+	}
+	bo, ok := iff.Cond.(*ssa.BinOp)
+	if !ok || (bo.Op != token.NEQ && bo.Op != token.EQL) || !(isNilConst(bo.X) || isNilConst(bo.Y)) {
+		return nil
+	}
+	x := bo.X
+	if isNilConst(x) {
+		x = bo.Y
+	}
+	call, ok := x.(*ssa.Call)
+	if !ok {
+		return nil
+	}
+	if b, ok := call.Call.Value.(*ssa.Builtin); !ok || b.Name() != "recover" {
+		return nil
+	}
+	side := entry.Succs[0]
+	if bo.Op == token.EQL {
+		side = entry.Succs[1]
+	}
+	if len(side.Preds) != 1 {
+		return nil
+	}
+	return side
 }
